@@ -38,6 +38,29 @@ def task(which, direction=None):
     return Task(w, f, cons[which], name=name, params=params).run()
 
 
+QUERIES = ["find_all_children", "get_ancestry", "find_child[as a function]", "find_single_node_by_path", "find_all_descendants"]
+
+
+def task_query(which):
+    """exact functional contracts of the search queries (contracts/c09_queries.py)"""
+    from pyvc.task import Task
+    from contracts.prelude import make_world, Node
+    from contracts import c09_queries as Q
+    w = make_world()
+    if which == "find_all_children":
+        con, f = Q.install_find_all_children(w), Node.find_all_children
+    elif which == "get_ancestry":
+        con, f = Q.install_get_ancestry(w), Node.get_ancestry
+    elif which == "find_child[as a function]":
+        con, f = Q.install_find_child_fn(w), Node.find_child
+    elif which == "find_single_node_by_path":
+        Q.install_find_child_fn(w)
+        con, f = Q.install_find_single_node_by_path(w), Node.find_single_node_by_path
+    elif which == "find_all_descendants":
+        con, f = Q.install_find_all_descendants(w), Node.find_all_descendants
+    return Task(w, f, con, name=f"C09/{which}").run()
+
+
 # ------------------------------------------------------------------------------------------------ bounded native pass
 NAMES = ["a", "b", "b", "a", "b"]
 
@@ -275,10 +298,14 @@ def main(tier, seed):
     t0 = time.time()
     specs = [("props.C09", "task", {"which": f}) for f in FUNCS]
     specs += [("props.C09", "task", {"which": "shift", "direction": d}) for d in ("RIGHT", "LEFT", "other")]
+    specs += [("props.C09", "task_query", {"which": q}) for q in QUERIES]
     results = common.run_tasks(specs)
     b = bounded(tier, seed)
     return common.decide(PID, tier, seed, results, b, t0, "DESIGN.md §4 C09", extra_assumptions=[
         "histories: each mutator is proved to re-establish Forest+Linked+own-lists+kids-typed from any state satisfying them "
         "(induction over histories is by this invariant)",
         "hypothesis of the property: an attached node is not listed anywhere and is not an ancestor of its new parent",
-        "bounded only (no contract yet): find_all_children, find_all_descendants, find_single_node_by_path, find_all_nodes_by_path, get_ancestry"])
+        "queries: find_all_children (filter by a counting function), find_all_descendants (count and document-order rank of every matching "
+        "descendant), find_single_node_by_path (chain of first children), get_ancestry (parent chain; terminates because parent links are acyclic: "
+        "precondition, ghost depth) have exact contracts; the ghost counting/rank functions enter through their one-level unfoldings (T-unfold)",
+        "bounded only (no contract yet): find_all_nodes_by_path"])
